@@ -268,11 +268,30 @@ def run_mt(lines):
         os.unlink(path)
 
 
+INOTIFY_RULE = ("; plus C20's inotify scenario programs (structures freed as early as the API allows): any AddressSanitizer report is a violation here")
 PUMP_RULE = ("; plus C17's pump scenario programs (quick: 160; all four modes incl. a failing splice probe) judged by the resource-accounting part of "
              "C17's oracle (buffers held or cached, two pipe descriptors per buffer, nothing alive after the thread's tear-down)")
 TRYFAIL_RULE = ("; plus the ENUMERATED family 'tryfail' (vlib/loopgen.py retract_cases, 128 scenarios + 24 'reregister'): iv_fd_register_try fails, the caller "
                 "frees the object or the descriptor number comes to life for another object, then earlier descriptors are unregistered (table "
                 "compaction) right away or from a timer; the library must not touch the released object")
+
+
+def inotify_memory(tier, seed, proof, res):
+    """iv_inotify keeps pointers to the application's watch and instance objects: C20's scenario programs free every structure as early as
+    the API allows (under AddressSanitizer); any memory error they expose (use-after-free, overflow, wild access) is reported here"""
+    from . import c20
+    sub = c20.run(tier, seed, proof)
+    res.evaluations += sub.evaluations
+    for sig, msg, pth in sub.impl_violations:
+        if "AddressSanitizer" in msg or "Sanitizer" in msg or "SEGV" in msg:
+            if pth and os.path.isfile(pth):
+                txt = open(pth).read()
+                open(pth, "w").write("# other-kind case (replayed by vlib/c20.py)\n" + txt)
+            res.impl_violations.append(("C18:c20:" + sig, "iv_inotify touches memory it does not own: " + msg, pth))
+            break
+    for d, pth in sub.divergences:
+        res.divergences.append(("inotify (c20 harness): " + d, pth))
+    res.extra["inotify_memory_cases"] = sub.evaluations
 
 
 PUMP_LEAK = re.compile(r"accounting|still alive|buffers cached", re.I)
@@ -306,7 +325,7 @@ def run(tier, seed, proof):
     def nontrivial(log):
         return log.count("LEDGER ") >= 2
     os.environ["IVY_DETECT_LEAKS"] = "1"
-    res = l1.run_property(PROP, tier, seed, proof, FAMILIES, [], SANS, nontrivial, RULE + TRYFAIL_RULE + PUMP_RULE, n_quick=50, n_thorough=800,
+    res = l1.run_property(PROP, tier, seed, proof, FAMILIES, [], SANS, nontrivial, RULE + TRYFAIL_RULE + PUMP_RULE + INOTIFY_RULE, n_quick=50, n_thorough=800,
                           extra_cases=lambda tier, seed: [c for c in loopgen.retract_cases(seed) if c[0].startswith(("tryfail", "reregister"))])
     # ledger oracle on the cycles family (re-run deterministically; cheap)
     per = 50 if tier == "quick" else 800
@@ -328,6 +347,8 @@ def run(tier, seed, proof):
         mt_hygiene(tier, seed, res)
     if not res.impl_violations:
         pump_hygiene(tier, seed, res)
+    if not res.impl_violations:
+        inotify_memory(tier, seed, proof, res)
     # thread churn: the end-of-run ledger must not depend on how many threads came and went
     ok, log = common.build_mt()
     if not ok:
@@ -371,6 +392,9 @@ def replay(path):
     if "# pump case" in open(path).read():
         from . import c17
         return c17.replay(path)
+    if "# other-kind case (replayed by vlib/c20.py)" in open(path).read():
+        from . import c20
+        return c20.replay(path)
     first = open(path).read().splitlines()
     hline = next((l for l in first if l.startswith("# harness ")), None)
     if hline:
